@@ -470,7 +470,8 @@ impl<'a> Parser<'a> {
         if end > self.b.len() {
             return false;
         }
-        self.s[self.i..end].eq_ignore_ascii_case(kw)
+        // Compare bytes: `end` need not be a character boundary of the input.
+        self.b[self.i..end].eq_ignore_ascii_case(kw.as_bytes())
     }
 
     /// Attempt to parse a sexagesimal literal: hh:mm[:ss[.frac]]
